@@ -28,6 +28,10 @@ def hostile_packet(rng, n_rr=4):
             return [b"living-room-speaker1", b"local"]
         if r == 2:
             return [b"_srv", b"_tcp", b"local"]
+        if r in (3, 4):
+            # one family of names that are equal, or in the suffix relation, only when letter case is ignored
+            return rng.choice([[b"_srv", b"_tcp", b"LOCAL"], [b"Printer", b"_srv", b"_tcp", b"local"], [b"printer", b"_SRV", b"_tcp", b"Local"],
+                               [b"_SRV", b"_TCP", b"local"], [b"local"], [b"LOCAL"], [b"x", b"Printer", b"_srv", b"_tcp", b"local"]])
         return [label() for _ in range(rng.below(4))]
 
     def cstr():
